@@ -39,6 +39,25 @@ def run(tier):
             rep.violated("R09.noexcept@%s" % fn, "R09.noexcept", "%s is noexcept for an element type with noexcept moves and throwing copies, but calls %s which may throw "
                          "(the exception becomes std::terminate)" % (fn, sorted(callees)[0][:100]), dict(function=fn, may_throw_callees=sorted(callees), element="nothrow-move"))
         rep.ok("R09.noexcept.scan(nothrow-move element)#%s" % tag, "R09.noexcept", dict(with_terminate_sites=len(sites2)))
+        # and with an element type all of whose own special members are noexcept while conversion / assignment from another element type may throw:
+        # conditional noexcept specifications of the cross-element-type overloads that consult the traits of T alone show up only here
+        mod3 = ownrules.module(wd, D, prelude="#define TRACKED_NOTHROW_OWN 1", tag="D%d_nto" % D)
+        sites3 = ownrules.noexcept_sites(mod3, full=True)
+        nx = 0
+        from vlib import absint as _absint
+        for fn_full, callees in sorted(sites3.items()):
+            # only instantiations that involve the other element type: the same-type ones are the subject of the two scans above
+            elem = sorted(_absint.short(c) for c in callees if "Other" in c) or (sorted(_absint.short(c) for c in callees) if "Other" in fn_full else [])
+            if not elem:
+                continue
+            fn = _absint.short(fn_full) + " [from another element type]"
+            nx += 1
+            rep.violated("R09.noexcept@%s" % fn, "R09.noexcept", "%s is noexcept for an element type whose own operations are noexcept, but converts / assigns elements of another "
+                         "type through %s, which may throw (the exception becomes std::terminate)" % (fn, elem[0][:100]), dict(function=fn, may_throw_callees=elem, element="nothrow-own"))
+        cross = [f for f in mod3.mod.funcs.values() if re.search(r"Tracked::(Tracked|operator=)\(Other", f.demangled)]
+        rep.ok("R09.noexcept.scan(cross-type element)#%s" % tag, "R09.noexcept", dict(with_terminate_sites=nx, cross_type_element_operations=len(cross)))
+        if not any(re.search(r"Tracked::operator=\(Other", mod3.mod.demangled.get(i.callee, "")) for f in mod3.mod.funcs.values() for b in f.blocks.values() for i in b if i.op in ("call", "invoke") and i.callee):
+            rep.break_("R09.noexcept (cross-type element, %s): no cross-type element assignment is instantiated by the driver" % tag)
         checked = [f for f in mod.mod.funcs.values() if "boost::multi" in f.demangled]
         rep.ok("R09.noexcept.scan#%s" % tag, "R09.noexcept", dict(functions_scanned=len(checked), with_terminate_sites=len(sites)))
         nhelpers += ownrules.rollback_rule(rep, mod, tag)
